@@ -25,6 +25,7 @@ pub fn defs() -> Vec<ScenDef> {
         d("chan", chan as fn(&mut Exec) -> Res, &[]),
         d("dis", dis, GATES),
         d("disrx", disrx, &[]),
+        d("disrace", disrace, &[]),
     ]
 }
 
@@ -473,6 +474,97 @@ fn disrx(x: &mut Exec) -> Res {
         if sh.seen[id].load(SeqCst) > 1 {
             return viol(format!("{:?} receiver-drop: value {}:{} received twice", kind, id / per, id % per));
         }
+    }
+    Ok(())
+}
+
+// ------------------------------------------------------------------------------------ C07 stress
+/// stress (hooks uninstalled): the last Sender's drop races with the receiver's try-receive /
+/// register / re-check steps on fresh channels, tens of thousands of rounds per execution with
+/// random offsets of a few hundred spins. Windows between two adjacent instructions of the
+/// dropping sender cannot be held open by a stall plan; here they are hit by volume. A receiver
+/// that is never told about the disconnect leaves the process quiescent with its recv() open.
+fn disrace(x: &mut Exec) -> Res {
+    let kind = *x.rng.pick(&[Kind::Spsc, Kind::Spsc, Kind::Mpsc, Kind::Mpmc]);
+    let rx_co = x.rng.chance(1, 2);
+    let rounds = if x.thorough { 100_000 } else { 25_000 };
+    let errs = Arc::new(std::sync::Mutex::new(Vec::<String>::new()));
+    // work items: the receiver gets the Rx (over a may channel if it is a coroutine, so that it
+    // waits cooperatively), the sender the Tx over a std channel
+    let (rx_work_tx, rx_work_rx) = mpsc::channel::<(Rx, u64)>();
+    let (tx_work_tx, tx_work_rx) = std::sync::mpsc::channel::<(Tx, u64, bool)>();
+    let rounds_done = Arc::new(AtomicUsize::new(0));
+    let go = Arc::new(AtomicUsize::new(0));
+    {
+        let (errs, rd, go) = (errs.clone(), rounds_done.clone(), go.clone());
+        x.spawn("receiver", rx_co, move |a| {
+            let mut n = 0usize;
+            while let Ok((rx, spins)) = rx_work_rx.recv() {
+                n += 1;
+                while go.load(SeqCst) < n {
+                    std::hint::spin_loop();
+                }
+                for _ in 0..spins {
+                    std::hint::spin_loop();
+                }
+                a.call("recv-until-disconnected", n as u64);
+                let mut got = 0;
+                loop {
+                    match rx.recv() {
+                        Got::Val(_) => got += 1,
+                        Got::Disc => break,
+                        _ => {}
+                    }
+                    if got > 1 {
+                        errs.lock().unwrap().push("received more values than were sent".into());
+                        break;
+                    }
+                }
+                a.ret("recv-until-disconnected", n as u64, got);
+                drop(rx);
+                rd.store(n, SeqCst);
+            }
+        });
+    }
+    {
+        let go = go.clone();
+        let reg = DropReg::new(1);
+        x.spawn("sender", false, move |_a| {
+            let mut n = 0usize;
+            while let Ok((tx, spins, send_one)) = tx_work_rx.recv() {
+                n += 1;
+                while go.load(SeqCst) < n {
+                    std::hint::spin_loop();
+                }
+                for _ in 0..spins {
+                    std::hint::spin_loop();
+                }
+                if send_one {
+                    let _ = tx.send(Msg { v: 0, t: Tracked::new(&reg, 0) });
+                }
+                drop(tx); // the last (only) sender goes away
+            }
+        });
+    }
+    x.desc = format!("{:?} disconnect race: {} rounds, receiver={} ; recv() and the Sender's drop start 0-600 spins apart", kind, rounds, if rx_co { "coroutine" } else { "thread" });
+    for round in 1..=rounds {
+        let (tx, rx) = make(kind);
+        let (a, b) = (x.rng.below(600), x.rng.below(600));
+        let send_one = x.rng.chance(1, 8);
+        let _ = tx_work_tx.send((tx, a, send_one));
+        let _ = rx_work_tx.send((rx, b));
+        go.store(round, SeqCst);
+        let rd = rounds_done.clone();
+        x.wait_cond(&move || rd.load(SeqCst) >= round).map_err(|e| match e {
+            Fail::Stranded(m) => Fail::Stranded(format!("round {}: the only Sender was dropped but recv() never returned; {}", round, m)),
+            o => o,
+        })?;
+    }
+    drop(tx_work_tx);
+    drop(rx_work_tx);
+    x.wait_all()?;
+    if let Some(e) = errs.lock().unwrap().first() {
+        return viol(format!("{:?} disconnect race: {}", kind, e));
     }
     Ok(())
 }
